@@ -117,6 +117,8 @@ def mon_c10(ops, obs, eng):
             continue
         if op[0] in CMD and panicked(r):
             break
+        if op[0] == "K" and op[1] == 2:
+            launched = True      # the launched flag is an ordinary key: after any applied write to it the key exists
         if op[0] == "Q":
             qs = op[1]
             nl = sum(1 for q in qs if q["type"] == 0 and not q["join"] and not q["restore"])
